@@ -464,6 +464,50 @@ func (vc *VC) evalCall(x *ECall, env *Env) SVal {
 		T := vc.namedType(x.Args[1])
 		v := arg(0)
 		return boolV(and(not(eq(v.S, "0")), eq(sx(vc.typeofFn(), v.S), litI(int64(vc.eng.typeID(types.NewPointer(T)))))))
+	case "sfun":
+		// sfun(name, s): an uninterpreted string-valued function of the CONTENT of string s
+		id, ok := x.Args[0].(*EIdent)
+		if !ok {
+			unsup("sfun(name, s)")
+		}
+		sv := arg(1)
+		if sv.K != KString {
+			unsup("sfun: argument is not a string")
+		}
+		fo, fl := "sf_"+id.Name+"_o", "sf_"+id.Name+"_l"
+		if !vc.declared[fo] {
+			vc.declared[fo] = true
+			vc.emit(fmt.Sprintf("(declare-fun %s (Int Int) Int)\n(declare-fun %s (Int Int) Int)", fo, fl))
+			vc.emit(fmt.Sprintf("(assert (forall ((k Int) (l Int)) (! (and (>= (%s k l) 0) (> (%s k l) 0)) :pattern ((%s k l)))))", fl, fo, fo))
+		}
+		vc.stridDecl()
+		key := ite(eq(sv.ln(), "0"), "0", sx("strid", sv.obj(), sv.off(), sv.ln()))
+		return stringV(types.Typ[types.String], sx(fo, key, sv.ln()), "0", sx(fl, key, sv.ln()))
+	case "ifun":
+		// ifun(name, s): an uninterpreted integer-valued function of the CONTENT of string s
+		id, ok := x.Args[0].(*EIdent)
+		if !ok {
+			unsup("ifun(name, s)")
+		}
+		sv := arg(1)
+		if sv.K != KString {
+			unsup("ifun: argument is not a string")
+		}
+		fi := "if_" + id.Name
+		if !vc.declared[fi] {
+			vc.declared[fi] = true
+			vc.emit(fmt.Sprintf("(declare-fun %s (Int Int) Int)", fi))
+		}
+		vc.stridDecl()
+		return mkInt(sx(fi, ite(eq(sv.ln(), "0"), "0", sx("strid", sv.obj(), sv.off(), sv.ln())), sv.ln()))
+	case "istype":
+		// istype(x, T): interface value x is non-nil and its dynamic type is the named type T
+		T := vc.namedType(x.Args[1])
+		v := arg(0)
+		return boolV(and(not(eq(v.S, "0")), eq(sx(vc.typeofFn(), v.S), litI(int64(vc.eng.typeID(T))))))
+	case "unboxv":
+		// unboxv(x, T): the value of named type T held by interface value x
+		return vc.unboxVal(arg(0), vc.namedType(x.Args[1]))
 	case "unbox":
 		// unbox(x, T): the *T held by interface value x (T a named type of the package under verification)
 		return vc.unboxVal(arg(0), types.NewPointer(vc.namedType(x.Args[1])))
